@@ -63,6 +63,7 @@ class PowNbinMask(Contract):
     Verified by complete enumeration of the 64 values (ground cases): the or-cascade of seven shifted copies is
     evaluated by the engine on each concrete n."""
     name = "pow_nbin_mask"
+    helper = True          # static helper of rfch_hop_seq_gen (the mechanism); its callers' contracts use this one
     cases = tuple(("n", n) for n in range(1, 65))
 
     def params(self, c):
